@@ -12,4 +12,7 @@ rsync -a --exclude .git --exclude seeded --exclude replays /verif/ "$W/verif/"
 lock=""
 case "$prop" in C09|C20) lock="flock /tmp/verif_realnats.lock";; esac
 $lock unshare -m sh -c "mount --bind '$W/repo' /repo && mount --bind '$W/verif' /verif && cd /verif && timeout 3000 ./run.sh $prop $tier"
-exit $?
+rc=$?
+# MUT_KEEP=<dir>: keep the evidence file and the replays of this run there
+if [ -n "${MUT_KEEP:-}" ]; then mkdir -p "$MUT_KEEP"; cp "$W/verif/evidence/$prop.json" "$MUT_KEEP/" 2>/dev/null; cp -r "$W/verif/replays/$prop" "$MUT_KEEP/replays_$prop" 2>/dev/null; fi
+exit $rc
